@@ -77,7 +77,9 @@ def histories(draw, max_ops):
 
 @st.composite
 def cases(draw, kind, max_ops, max_leaves):
-    base = draw(gen.json_cases(max_leaves, 4) if kind == 'json' else gen.nested_list_cases())
+    base = draw(gen.json_cases(max_leaves, 4) if kind == 'json' else
+                (gen.skewed_cases(6) if kind == 'skewed' else
+                 (gen.padded_cases() if kind == 'padded' else gen.nested_list_cases())))
     return {'a': base['a'], 'b': base['b'], 'ds': base['ds'], 'le': base['le'], 'quiet': draw(st.booleans()),
             'color': draw(st.booleans()), 'history': draw(histories(max_ops))}
 
@@ -91,6 +93,8 @@ def jobs(tier):
     for s in range(16):
         js.append({'kind': 'json', 'n': n_json, 'max_ops': ops, 'max_leaves': 10 if tier == 'quick' else 20, 'shard': s})
         js.append({'kind': 'nested', 'n': n_nested, 'max_ops': ops, 'max_leaves': 0, 'shard': s})
+        js.append({'kind': 'skewed', 'n': max(8, n_nested // 10), 'max_ops': 10, 'max_leaves': 0, 'shard': s})
+        js.append({'kind': 'padded', 'n': max(16, n_nested // 5), 'max_ops': 10, 'max_leaves': 0, 'shard': s})
         js.append({'kind': 'exhaustive', 'maxlen': exl, 'shard': s})
     return js
 
